@@ -128,3 +128,17 @@ def ring(n, delays, menu=(1, 2), end=6, order=None, fixed=None, starts=None, pul
         links.append(L(names[-1], "o", "Z", "i", []))
     allnames = [c["name"] for c in comps]
     return dict(family="ring%d" % n, comps=comps, links=links, order=list(order) if order else allnames, end=end)
+
+
+def ringPdup(ch0, ch1, two_outputs=False, with_b=False, menu=(1, 2), end=5, order=None, pull_initial=True):
+    """a ring through a pull-based component whose output side reaches the consumer over TWO parallel links (one output linked twice, or two
+    outputs), each with its own chain: A.o >> P.i, P.o >> ch0 >> X.i0, P.o >> ch1 >> X.i1, where X is A itself or a second component B with B.o >> A.i"""
+    outs = ("o0", "o1") if two_outputs else ("o", "o")
+    if with_b:
+        comps = [T("A", menu, ins=["i"], outs=["o"]), P("P", outs=tuple(dict.fromkeys(outs))), T("B", menu, ins=["i0", "i1"], outs=["o"], pull_initial=pull_initial)]
+        links = [L("A", "o", "P", "i"), L("P", outs[0], "B", "i0", ch0), L("P", outs[1], "B", "i1", ch1), L("B", "o", "A", "i")]
+    else:
+        comps = [T("A", menu, ins=["i0", "i1"], outs=["o"], pull_initial=pull_initial), P("P", outs=tuple(dict.fromkeys(outs)))]
+        links = [L("A", "o", "P", "i"), L("P", outs[0], "A", "i0", ch0), L("P", outs[1], "A", "i1", ch1)]
+    names = [c["name"] for c in comps]
+    return dict(family="ringPdup", comps=comps, links=links, order=list(order) if order else names, end=end)
